@@ -318,6 +318,22 @@ def check_roundtrip(spec, ctx, file_io=True):
                   and list(B.start_vertices) == [rec["initial"]],
                   "load_kbmag_file differs from the text", got=B.graph_dict,
                   want=model.graph_dict(), text=text)
+        if "\n" in text:
+            # the same record saved with CRLF line ends (a file that went through Windows):
+            # still the text's table, a line end being a line end
+            ctx.label("crlf-file")
+            fd, path = tempfile.mkstemp(prefix="vt_kbmag_", suffix=".wa",
+                                        dir=os.environ.get("TMPDIR") or None)
+            try:
+                with os.fdopen(fd, "w", newline="") as f:
+                    f.write(text.replace("\n", "\r\n"))
+                B = fsa.load_kbmag_file(path)
+            finally:
+                os.unlink(path)
+            ctx.check({v: dict(nb) for v, nb in B.graph_dict.items()} == model.graph_dict()
+                      and list(B.start_vertices) == [rec["initial"]],
+                      "load_kbmag_file of the CRLF copy differs from the text",
+                      got=B.graph_dict, want=model.graph_dict(), text=text)
     return text
 
 
